@@ -112,9 +112,11 @@ class Module:
         self.imports = {}      # local name -> ('mod', modname) | ('obj', modname, objname)
         for n in self.tree.body:
             self._top(n)
+        shared = (ast.expr_context, ast.operator, ast.boolop, ast.cmpop, ast.unaryop)     # singletons of the parser: no parent
         for n in ast.walk(self.tree):
             for c in ast.iter_child_nodes(n):
-                c._parent = n
+                if not isinstance(c, shared):
+                    c._parent = n
 
     def _top(self, n):
         if isinstance(n, (ast.FunctionDef, ast.AsyncFunctionDef)):
